@@ -3,6 +3,7 @@ under a plan (crash point and/or faults) and report what happened."""
 import random
 
 from engines import simfs
+from simkit.core import Unsimulated as core_Unsimulated
 
 fu = None        # boltons.fileutils
 DIR = '/sim/dir'
@@ -122,8 +123,17 @@ def run_save(case, plan=None, log=None, hooks=None, fs=None, only_warmup=False):
             r.body_done = True
     except simfs.CrashNow:
         r.crashed = True
+    except core_Unsimulated:
+        sim.dispose()
+        raise
     except BaseException as e:
         r.exc = e
+        fn = getattr(e, 'filename', None)
+        if (isinstance(e, FileNotFoundError) and isinstance(fn, str) and fn.startswith(DIR)
+                and fs.lookup(fn) is not None):
+            # the path exists in the simulated file system but the REAL kernel was asked about it
+            sim.dispose()
+            raise core_Unsimulated('the code under test touched the real file system at simulated path %s' % fn)
     finally:
         sim.dispose()
     return r
@@ -315,3 +325,79 @@ def fidelity_diff(case):
         if real[k] != sim[k]:
             return '%s differs: real %r, simfs %r' % (k, real[k], sim[k])
     return None
+
+
+def real_crash_enumeration(case, max_points=40):
+    """Process-death view on the real kernel, end to end: fork a child per os-level call k of the
+    fault-free save; the child _exit()s immediately before its k-th recorded call (no unwinding,
+    no flushing); the parent then reads the destination, which must hold the old or the complete
+    new content.  -> (points tried, list of problems)"""
+    import os
+    import shutil
+    import tempfile
+    import fcntl as real_fcntl
+    base = run_real(case)
+    n = len(base['calls'])
+    old = bytes.fromhex(case['dest_initial']['data']) if case.get('dest_initial') else None
+    new = new_content(case)
+    problems = []
+    tried = 0
+    for k in range(min(n, max_points)):
+        d = tempfile.mkdtemp(prefix='simfs-realcrash-')
+        try:
+            dest_name = case.get('dest_name', 'dest.txt')
+            dest_abs = os.path.join(d, dest_name)
+            if case.get('dest_initial'):
+                with open(dest_abs, 'wb') as fh:
+                    fh.write(old)
+                os.chmod(dest_abs, case['dest_initial']['mode'])
+            pid = os.fork()
+            if pid == 0:
+                try:
+                    os.umask(case.get('umask', 0o022))
+                    os.chdir(d)
+                    rec = _RecOS()
+                    count = [0]
+                    orig_getattr = _RecOS.__getattr__
+
+                    class Dying(_RecOS):
+                        def __getattr__(self, name):
+                            val = orig_getattr(self, name)
+                            if name in _RecOS._RECORD:
+                                def w(*a, **kw):
+                                    if len(self.calls) == k:
+                                        os._exit(0)
+                                    return val(*a, **kw)
+                                return w
+                            return val
+                    dy = Dying()
+                    plx = dy.path.lexists
+
+                    def lex(p):
+                        if len(dy.calls) == k:
+                            os._exit(0)
+                        return plx(p)
+                    dy.path.lexists = lex
+                    fu.os = dy
+                    fu.fcntl = real_fcntl
+                    with fu.atomic_save(dest_name if case.get('dest_rel') else dest_abs, **kwargs_of(case)) as f:
+                        for step in case['body']:
+                            if step[0] == 'write':
+                                f.write(step[1] if case.get('text_mode') else bytes.fromhex(step[1]))
+                            elif step[0] == 'flush':
+                                f.flush()
+                finally:
+                    os._exit(0)
+            os.waitpid(pid, 0)
+            tried += 1
+            got = None
+            if os.path.exists(dest_abs):
+                with open(dest_abs, 'rb') as fh:
+                    got = fh.read()
+            ok = (got is None and old is None) or got == new or (old is not None and got == old)
+            if not ok:
+                problems.append('child died before os-level call %d (%s): destination reads %r, old %r, new %r'
+                                % (k, base['calls'][k], got, old, new))
+        finally:
+            shutil.rmtree(d, ignore_errors=True)
+    return tried, problems
